@@ -49,7 +49,10 @@ constexpr auto exp_cf(T const x) noexcept -> T
 template <typename T>
 constexpr auto exp_split(T const x) noexcept -> T
 {
-    return static_cast<T>(pow_integral(etl::numbers::e, find_whole(x)) * exp_cf(find_fraction(x)));
+    // e^n in double for float and double (as before); in long double for long double, whose range and
+    // precision a double power cannot cover (exp(710.0L) overflowed to inf)
+    using wide = typename etl::conditional<(sizeof(T) > sizeof(double)), T, double>::type;
+    return static_cast<T>(pow_integral(etl::numbers::e_v<wide>, find_whole(x)) * exp_cf(find_fraction(x)));
 }
 
 template <typename T>
